@@ -272,18 +272,20 @@ def jobs(tier):
         for asc in (True, False):
             js.append((h_stable_long, ('awkward_argsort_' + t, 17, asc), 240))
     types_q = ('int64', 'float64', 'int8', 'uint32', 'bool', 'float32')
-    int_lens = [(0,), (1,), (2,), (3,), (2, 1)] if tier == 'quick' else \
-        [l for r in (1, 2) for l in itertools.product(range(5), repeat=r) if sum(l) <= 6]
+    # thorough: every one- and two-segment shape up to length 3; segments of 4 (where the inlined std::sort of 64-bit keys can keep z3 busy for
+    # most of an hour) only for the widest and the narrowest integer type
+    int_lens = [(0,), (1,), (2,), (3,), (2, 1)] if tier == 'quick' else [l for r in (1, 2) for l in itertools.product(range(4), repeat=r)]
+    long_lens = [] if tier == 'quick' else [(4,), (4, 1)]
     flt_lens = [(0,), (1,), (2,), (1, 2)] if tier == 'quick' else [(0,), (1,), (2,), (3,), (1, 2), (2, 2)]
     for kn, arg in (('awkward_sort', False), ('awkward_argsort', True)):
         for s in K[kn].specs:
             if tier == 'quick' and not any(s.name.endswith('_' + t) for t in types_q):
                 continue
             isf = 'float' in s.name
-            for lens in (flt_lens if isf else int_lens):
+            for lens in (flt_lens if isf else int_lens + (long_lens if s.name.endswith(('_int64', '_uint8')) else [])):
                 for asc in (True, False):
                     for stable in (True, False):
-                        js.append((h_sort, (s.name, lens, asc, stable, arg), 600 if tier == 'quick' else 1800))
+                        js.append((h_sort, (s.name, lens, asc, stable, arg), 600 if tier == 'quick' else 1200))
     for s in K['awkward_quick_sort'].specs:
         if tier == 'quick' and not any(s.name.endswith('_' + t) for t in ('int64', 'float64', 'uint8')):
             continue
